@@ -411,10 +411,15 @@ def config_from_fits(filename: str) -> NssConfig:
             "angle_from_limb": s("angle_from_limb"),
             "cherenkov_light_engine": s("cherenkov_light_engine"),
             "cloud_model": {"id": s("cloud_model id")},
-            "ionosphere": {
-                "total_electron_content": s("ionosphere total_electron_content"),
-                "total_electron_error": s("ionosphere total_electron_error"),
-            },
+            # a run without an ionosphere block (ionosphere=None) stores no such keywords
+            "ionosphere": (
+                {
+                    "total_electron_content": s("ionosphere total_electron_content"),
+                    "total_electron_error": s("ionosphere total_electron_error"),
+                }
+                if "Config simulation ionosphere total_electron_content" in h
+                else None
+            ),
             "max_azimuth_angle": s("max_azimuth_angle"),
             "max_cherenkov_angle": s("max_cherenkov_angle"),
             "mode": s("mode"),
